@@ -7,6 +7,10 @@ CONSTANTS
   KText = 1
   KWire = 1
   VAlpha = {65}
+  BigK = {1}
+  BigFill = {255}
+  PairAlpha = {65}
+  ZAlpha = {0, 64, 65, 90, 91, 122, 255}
   Modes = {"zone"}
 INVARIANT SuccMinimal
 INVARIANT PredMaximal
